@@ -1,0 +1,13 @@
+//go:build verif
+
+// Contracts for package internal (read by /verif/gowp; no executable code).
+package internal
+
+// UnquoteAll drives the combinator parser (closures over mutable parser
+// state, outside the verifier's subset): assumed to be a pure function of its
+// argument that always returns.
+//@ func UnquoteAll
+//@   trusted
+//@   modifies nothing
+//@   ensures result == unquoted(s)
+//@ ufunc unquoted(s) string
